@@ -37,6 +37,7 @@ impl Driver {
         evt["t"] = json!(self.t);
         evt["price"] = json!(100 + (self.t % 7));
         self.kit.set_env(env);
+        self.kit.set_close_mode(ev);
         let _ = self.kit.links.take();
         self.kit.script.lock().disconnects.clear();
         let engine = &mut self.kit.engine;
